@@ -117,7 +117,19 @@ fn build(cfg: &Cfg, ring: &Ring, data: &[u8], seed: u64, tmp: &std::path::Path) 
     macro_rules! write_out {
         ($b:expr) => {{
             let b = $b;
-            if cfg.armor {
+            if matches!(cfg.source, Source::File) {
+                // file in, file out: the output path already holds a longer file (an earlier message)
+                let out_path = tmp.with_extension("out");
+                std::fs::write(&out_path, vec![0xEEu8; 70_000]).map_err(|e| e.to_string())?;
+                if cfg.armor {
+                    let opts = ArmorOptions { headers: None, include_checksum: cfg.checksum };
+                    b.to_armored_file(&mut rng, &out_path, opts).map_err(|e| e.to_string())?;
+                } else {
+                    b.to_file(&mut rng, &out_path).map_err(|e| e.to_string())?;
+                }
+                out = std::fs::read(&out_path).map_err(|e| e.to_string())?;
+                let _ = std::fs::remove_file(&out_path);
+            } else if cfg.armor {
                 let opts = ArmorOptions { headers: None, include_checksum: cfg.checksum };
                 b.to_armored_writer(&mut rng, opts, &mut out).map_err(|e| e.to_string())?;
             } else {
